@@ -1,8 +1,8 @@
 package level
 
 import (
-	"github.com/Tnze/go-mc/level/biome"
 	vp "github.com/Tnze/go-mc/internal/zzvp"
+	"github.com/Tnze/go-mc/level/biome"
 )
 
 const vpMaxState = 1 << 14 // ids assumed inside the registry range (15 bits for blocks)
@@ -24,4 +24,3 @@ func vpIndex(n int) int {
 	vp.Assume(i >= 0 && i < n)
 	return i
 }
-
